@@ -83,6 +83,17 @@ def open_source(kind: str, data: bytes, workdir: str):
         return framing.ChunkedRaw(data, [], then=7), None
     if kind == "buffered-over-pipe":
         return io.BufferedReader(framing.ChunkedRaw(data, [2, 5], then=64), buffer_size=32), None
+    if kind in ("socket-makefile", "socket-makefile-unbuffered"):
+        # the stream arrives over a socket (the documented streaming use): everything is sent, the producer closes, the consumer reads through makefile()
+        import socket  # noqa: PLC0415
+
+        if len(data) > 32768:
+            raise ValueError("socket sources are for small workloads only")
+        a, b = socket.socketpair()
+        a.sendall(data)
+        a.close()
+        fh = b.makefile("rb", buffering=(0 if kind.endswith("unbuffered") else 16))
+        return fh, lambda: (fh.close(), b.close())
     raise ValueError(kind)
 
 
